@@ -277,7 +277,7 @@ impl<'a> GeneratorState<'a> {
                     VariableType::CharPtrPtr | VariableType::ShortPtr => {
                         let v = self.compiler_state.get_variable(variable);
                         let off = offset.wrapping_add(if high_byte { v.size as i32 } else { 0 });
-                        if off > 0 {
+                        if off != 0 {
                             dasm_operand = format!("{}+{}", variable, off);
                         } else {
                             dasm_operand = variable.to_string();
